@@ -14,8 +14,8 @@ from . import VERIF_DIR
 
 EVIDENCE_SCHEMA = "/root/.vp/EVIDENCE.schema.json"
 KNOWN_FINDINGS = os.path.join(VERIF_DIR, "known_findings.json")
-REPLAY_DIR = os.path.join(VERIF_DIR, "replays")
-EVIDENCE_DIR = os.path.join(VERIF_DIR, "evidence")
+REPLAY_DIR = os.environ.get("VERIF_REPLAY_DIR") or os.path.join(VERIF_DIR, "replays")
+EVIDENCE_DIR = os.environ.get("VERIF_EVIDENCE_DIR") or os.path.join(VERIF_DIR, "evidence")
 MAX_VIOL_PER_SIG = 2
 MAX_SAMPLES = 6
 
